@@ -107,26 +107,36 @@ def per_build_caches(repo, run, rule):
 
 
 def evaluate_a_copy(repo, run, rule):
+    """on every path of Config.__init__ that evaluates, the tree handed to <ctx>.evaluate is copy.deepcopy(S) where S is the
+    tree retained as self._source (decided on traces: locals substituted, helpers inlined)"""
+    from . import tr
     fi = repo.func('Config.__init__')
-    ev = [c for c in calls_in(fi.node) if is_method_call(c, member='evaluate', ayns=False) and c.args]
-    src = [s for s in walk_no_nested(fi.node) if isinstance(s, ast.Assign) and norm(s.targets[0]) == 'self._source']
-    if len(ev) != 1 or len(src) != 1:
-        raise AnalysisError('Config.__init__: evaluate(...) / self._source = ... not recognised')
-    arg, kept = ev[0].args[0], src[0].value
-
-    def deep_of(e):
-        """name X such that e is (a name bound to) copy.deepcopy(X)"""
-        if isinstance(e, ast.Call) and norm(e.func) in ('copy.deepcopy', 'deepcopy') and e.args:
-            return norm(e.args[0])
-        if isinstance(e, ast.Name):
-            d = [x for x in name_defs(fi, e.id) if x[0] == 'assign' and isinstance(x[1], ast.Call) and norm(x[1].func) in ('copy.deepcopy', 'deepcopy')]
-            if len(d) == 1 and len(name_defs(fi, e.id)) == 1:
-                return norm(d[0][1].args[0])
-        return None
-    a, k = deep_of(arg), deep_of(kept)
-    if (a is not None and a == norm(kept)) or (k is not None and k == norm(arg) and False):
-        run.ok(rule, (fi.file, ev[0].lineno, fi.qualname), 'evaluate(%s) where %s = copy.deepcopy(%s); self._source = %s' % (norm(arg), norm(arg), a, norm(kept)), 'evaluated tree and retained source share no node')
-    else:
-        shallow = isinstance(arg, ast.Name) and any(isinstance(x[1], ast.Call) and norm(x[1].func) in ('copy.copy', 'dict', 'ConfigDict') for x in name_defs(fi, arg.id))
-        run.violation(rule, fi, 'evaluate(%s) / self._source = %s' % (norm(arg), norm(kept)),
-                      'the tree handed to the evaluator is not a deep copy of the retained source%s: evaluation (which re-parents and mutates nodes) changes what cfg.ayns.source keeps' % (' (shallow copy: nested nodes are shared)' if shallow else ''), node=ev[0])
+    paths = tr.paths_of(repo, fi, no_inline={'evaluate', 'check_missing', '__init__'}, follow_exceptions=False)
+    n = 0
+    verdicts = {}
+    for p in paths:
+        evs = [e for e in p.events if e.kind == 'call' and e.attr == 'evaluate' and e.args]
+        if not evs:
+            continue
+        if len(evs) != 1:
+            raise AnalysisError('Config.__init__: more than one evaluate(...) on a path')
+        n += 1
+        e = evs[0]
+        arg = e.args[0]
+        src = [x for x in p.events if x.kind == 'store' and x.target == 'self._source']
+        if len(src) != 1 or src[0].value is None:
+            raise AnalysisError('Config.__init__: evaluate(...) / self._source = ... not recognised')
+        kept = src[0].value.text
+        a = arg.ast
+        if isinstance(a, ast.Call) and norm(a.func) in ('copy.deepcopy', 'deepcopy') and a.args and norm(a.args[0]) == kept:
+            verdicts.setdefault('ok', (e, 'evaluate(copy.deepcopy(S)); self._source = S'))
+        else:
+            shallow = isinstance(a, ast.Call) and norm(a.func) in ('copy.copy', 'dict', 'ConfigDict')
+            verdicts.setdefault('bad', (e, 'the tree handed to the evaluator (%s) is not a deep copy of the retained source (%s)%s: evaluation (which re-parents and mutates nodes) changes what cfg.ayns.source keeps' % (arg.text[:50], kept[:40], ' (shallow copy: nested nodes are shared)' if shallow else '')))
+    if not n:
+        raise AnalysisError('Config.__init__: evaluate call not found')
+    for k, (e, why) in verdicts.items():
+        if k == 'ok':
+            run.ok(rule, tr.where(fi, e), why, 'evaluated tree and retained source share no node')
+        else:
+            run.violation(rule, tr.where(fi, e), 'evaluate(...) / self._source', why)
